@@ -1,7 +1,7 @@
 """C03 — returned data conforms to schema and selection whatever resolvers return."""
 from . import c01
 
-C03_FILES = ["Properties/C03.v", "Proofs/ExecConform.v"]
+C03_FILES = ["Properties/C03.v", "Proofs/ExecConform.v", "Proofs/ExecJson.v", "Proofs/BuiltinLeaves.v"]
 
 
 def extra(c, r):
